@@ -187,6 +187,8 @@ def impl(case):
     c0 = Curve(U, P)
     cv0 = [out_num(c0(u)) for u in nodes]
     kv2 = KnotVector(U)
+    # the derived views are read BEFORE the in-place map (anything cached on the object must follow the map)
+    capture(lambda: (kv2.knots, kv2.mult(kv2.knots), kv2.limits, Function(kv2)((U[0] + U[-1]) / 2)))
     op, arg = case["op"], (None if case["arg"] is None else num(case["arg"]))
 
     def act():
@@ -210,6 +212,9 @@ def impl(case):
         out["nodes1"] = out_nums(nodes1)
 
         def after():
+            ks1 = list(kv2.knots)
+            if len(ks1) != len(set(U)) or ks1 != sorted(set(list(kv2))) or list(kv2.mult(ks1)) != [list(kv2).count(k) for k in ks1]:
+                raise ArithmeticError("distinct knots / multiplicities of the mapped vector do not describe it")
             f1 = Function(kv2)
             c1 = Curve(kv2, P)
             return [[out_nums(list(f1(u))) for u in nodes1], [out_num(c1(u)) for u in nodes1]]
